@@ -554,8 +554,94 @@ func c20Cadence(ctx *Ctx, i int) {
 	ctx.Emit(Case{I: i, Kind: "cadence-slow-pool", Desc: map[string]interface{}{"interval_ms": 200, "answer_after_ms": 180, "keepalives": sent, "intervals": intervals}, Monitor: mon})
 }
 
+// c20StopSlowKeepalive: Stop arrives while a keep-alive is in flight and the pool takes longer to
+// answer it than any timeout the agent has (3 s here, through the hook). Once Stop has returned
+// the agent is stopped: the keep-alive in flight may finish, none is sent after it, Wait returns,
+// and the agent can be started again.
+func c20StopSlowKeepalive(ctx *Ctx, i int) {
+	const interval = 40 * time.Millisecond
+	const slow = 3600 * time.Millisecond
+	node := &recNode{kind: ethnode.Geth, connFail: -1}
+	lp := &lifePool{}
+	a := &agent.Agent{EthNode: node, UpdateInterval: interval, NumHosts: 0}
+	var mon []string
+	if err := a.Start(lp); err != nil {
+		fatal("start: %v", err)
+	}
+	time.Sleep(3 * interval)
+	lp.mu.Lock()
+	lp.updateDelay = slow
+	lp.mu.Unlock()
+	before := atomic.LoadInt64(&lp.updates)
+	for t := 0; t < 200 && atomic.LoadInt64(&lp.updates) == before; t++ {
+		time.Sleep(5 * time.Millisecond)
+	}
+	// a keep-alive is in flight now and will be for 3.6 s (the ones after it are answered at once:
+	// the loop may well send another before it takes the stop request)
+	inFlight := atomic.LoadInt64(&lp.updates)
+	time.Sleep(20 * time.Millisecond)
+	lp.mu.Lock()
+	lp.updateDelay = 0
+	lp.mu.Unlock()
+	t0 := time.Now()
+	stopped := make(chan time.Duration, 1)
+	go func() { a.Stop(); stopped <- time.Since(t0) }()
+	waited := make(chan error, 1)
+	go func() { waited <- a.Wait() }()
+	var stopTook time.Duration
+	select {
+	case stopTook = <-stopped:
+	case <-time.After(slow + 3*time.Second):
+		mon = append(mon, fmt.Sprintf("c20-stop-slow-keepalive: Stop was called while a keep-alive was in flight (the pool answers it after %s); it has not returned %s later", slow, slow+3*time.Second))
+	}
+	lp.mu.Lock()
+	lp.updateDelay = 0
+	lp.mu.Unlock()
+	if len(mon) == 0 {
+		// from here on the agent counts as stopped
+		remaining := slow - time.Since(t0)
+		if remaining > 0 {
+			time.Sleep(remaining)
+		}
+		time.Sleep(4 * interval)
+		base := atomic.LoadInt64(&lp.updates)
+		time.Sleep(12 * interval)
+		after := atomic.LoadInt64(&lp.updates)
+		waitOK := false
+		select {
+		case <-waited:
+			waitOK = true
+		case <-time.After(time.Second):
+		}
+		if after != base || !waitOK {
+			mon = append(mon, fmt.Sprintf("c20-stop-slow-keepalive: Stop was called while a keep-alive was in flight (the pool answered it after %s) and returned after %s; afterwards %d more keep-alives were sent in %s and Wait returned=%v: the agent was told to stop and runs on", slow, stopTook.Round(time.Millisecond), after-base, 12*interval, waitOK))
+			if !waitOK {
+				// do not leave the loop running behind the other cases
+				done := make(chan struct{})
+				go func() { a.Stop(); close(done) }()
+				select {
+				case <-done:
+				case <-time.After(2 * time.Second):
+				}
+			}
+		} else if err := a.Start(lp); err != nil {
+			mon = append(mon, fmt.Sprintf("c20-stop-slow-keepalive: after Stop (during a slow keep-alive) and Wait the agent cannot be started again: %v", err))
+		} else {
+			a.Stop()
+			a.Wait()
+		}
+	}
+	ctx.Emit(Case{I: i, Kind: "stop-during-slow-keepalive", Desc: map[string]interface{}{"interval_ms": 40, "pool_answers_after_ms": slow.Milliseconds(), "agent_timeouts_ms": 3000, "keepalives_before_stop": inFlight, "stop_returned_after_ms": stopTook.Milliseconds()}, Monitor: mon})
+}
+
 func runC20(ctx *Ctx) {
 	agent.VerifSetTimeouts(3*time.Second, 3*time.Second)
+	var slowWG sync.WaitGroup
+	if ctx.Want(900) {
+		slowWG.Add(1)
+		go func() { defer slowWG.Done(); c20StopSlowKeepalive(ctx, 900) }()
+	}
+	defer slowWG.Wait()
 	n := ctx.N(24, 400)
 	// lifecycle sequences are timing based: run a few at a time only
 	var wg sync.WaitGroup
